@@ -21,6 +21,7 @@ import PqlModel.Props.C08ErrIRUnits
 import PqlModel.Props.C08ErrIRAlgebra
 import PqlModel.Props.C08ErrIRShape
 import PqlModel.Props.C08ErrIR
+import PqlModel.Props.IRHeadlinesC
 #print axioms Pql.C07.C07_precedence_table
 #print axioms Pql.C07.C07_spec_prec_eq_model
 #print axioms Pql.C07.C07_join_kinds
@@ -160,3 +161,11 @@ import PqlModel.Props.C08ErrIR
 #print axioms Pql.OpIR.C07_sortOperator_ir_composed
 #print axioms Pql.OpIR.C07_takeOperator_ir_composed
 #print axioms Pql.OpIR.C07_topOperator_ir_composed
+#print axioms Pql.IRHead.C07_grammar_ir
+#print axioms Pql.IRHead.C07_grammar_source_ir
+#print axioms Pql.IRHead.C07_expr_ir
+#print axioms Pql.IRHead.C07_layout_tokens_ir
+#print axioms Pql.IRHead.C07_layout_source_ir
+#print axioms Pql.IRHead.C07_trivia_insertion_ir
+#print axioms Pql.IRHead.C07_on_translated_code
+#print axioms Pql.IRHead.C07_on_translated_code_nonvacuous
